@@ -135,6 +135,9 @@ fn sig_menu(k: usize) -> Option<jmespath::functions::Signature> {
             vec![A::TypedArray(Box::new(A::TypedArray(Box::new(A::Union(vec![A::Null, A::String])))))],
             Some(A::TypedArray(Box::new(A::Any))),
         )),
+        13 => Some(Signature::new(vec![A::Array], Some(A::String))),
+        14 => Some(Signature::new(vec![A::Any, A::Object], Some(A::Number))),
+        15 => Some(Signature::new(vec![A::Union(vec![A::Array, A::String])], Some(A::Array))),
         _ => Some(Signature::new(vec![], None)),
     }
 }
@@ -155,7 +158,7 @@ fn custom_fn(id: u64, sig: usize) -> Box<dyn jmespath::functions::Function> {
 
 /// registry: `<ops>\t<doc>\t<expr hex>,<expr hex>,…` with ops `;`-separated: `r:<namehex>:<id>:<sig>`, `d:<namehex>`, `b`
 /// → one result per query, `|`-separated
-fn stream_registry(fields: &[&str], via_clone: bool) -> String {
+fn stream_registry(fields: &[&str], via_clone: bool, noise: bool) -> String {
     guarded(|| {
         let mut rt = jmespath::Runtime::new();
         for op in fields[0].split(';').filter(|o| !o.is_empty()) {
@@ -173,6 +176,17 @@ fn stream_registry(fields: &[&str], via_clone: bool) -> String {
         let mut outs = vec![];
         for q in fields[2].split(',').filter(|q| !q.is_empty()) {
             let expr = unhex_str(q);
+            // `registrynoise`: unrelated activity on the shared DEFAULT runtime (the same text compiled and searched there, and one call of every
+            // builtin) happens between the steps of the observed history; purity says it cannot matter
+            let make_noise = |doc: &Rcvar| {
+                if noise {
+                    let _ = jmespath::compile(&expr).and_then(|e| e.search(doc.clone()));
+                    let _ = jmespath::compile("[abs(`1`), length(@), type(@), to_string(@), not_null(@), keys(`{}`), max(`[1]`), sort_by(`[]`, &@), map(&@, `[]`), sum(`[]`)]")
+                        .and_then(|e| e.search(doc.clone()));
+                    let _ = jmespath::compile(&expr).and_then(|e| e.search(doc.clone()));
+                }
+            };
+            make_noise(&doc);
             outs.push(match rt.compile(&expr) {
                 Err(e) => format!("C {}", err_str(&e)),
                 Ok(c) => {
@@ -184,6 +198,7 @@ fn stream_registry(fields: &[&str], via_clone: bool) -> String {
                     } else {
                         c
                     };
+                    make_noise(&doc);
                     match c.search(doc.clone()) {
                         Ok(r) => format!("ok {}", value_str(&r)),
                         Err(e) => err_str(&e),
@@ -197,6 +212,17 @@ fn stream_registry(fields: &[&str], via_clone: bool) -> String {
 
 /// history: `<docs ';'-separated>\t<ops ';'-separated>`; ops: `c<k>:<exprhex>` compile into slot k, `l<k>:<j>` clone slot j into k,
 /// `s<k>:<docidx>` search, `x<k>` drop.  → per op result, then `docs=same|changed`, then `fresh=ok|DIFF@i`
+/// run `f` underneath `frames` ordinary caller frames of about 4 KiB each (the library is called from wherever its user happens to be)
+#[inline(never)]
+fn under_frames<R>(frames: usize, f: &mut dyn FnMut() -> R) -> R {
+    let mut pad = [0u8; 4096];
+    pad[frames % 4096] = frames as u8;
+    std::hint::black_box(&mut pad);
+    let r = if frames == 0 { f() } else { under_frames(frames - 1, f) };
+    std::hint::black_box(&pad);
+    r
+}
+
 fn stream_history(fields: &[&str]) -> String {
     guarded(|| {
         let doc_src: Vec<&str> = fields[0].split(';').collect();
@@ -205,11 +231,14 @@ fn stream_history(fields: &[&str]) -> String {
         let mut outs = vec![];
         let mut fresh = "ok".to_string();
         for (i, op) in fields[1].split(';').filter(|o| !o.is_empty()).enumerate() {
-            let kind = &op[..1];
+            let kind0 = &op[..1];
             let rest: Vec<&str> = op[1..].split(':').collect();
             let k: usize = rest[0].parse().unwrap();
+            // `C` / `S` are `c` / `s` performed underneath rest[2] extra caller frames (a deep call stack is not part of the input)
+            let frames: usize = if kind0 == "C" || kind0 == "S" { rest[2].parse().unwrap() } else { 0 };
+            let kind = if kind0 == "C" { "c" } else if kind0 == "S" { "s" } else { kind0 };
             match kind {
-                "c" => match jmespath::compile(&unhex_str(rest[1])) {
+                "c" => match under_frames(frames, &mut || jmespath::compile(&unhex_str(rest[1]))) {
                     Ok(e) => {
                         outs.push(format!("ok {}", ast_str(e.as_ast())));
                         slots[k] = Some(e);
@@ -233,7 +262,7 @@ fn stream_history(fields: &[&str]) -> String {
                     match &slots[k] {
                         None => outs.push("empty".into()),
                         Some(e) => {
-                            let r = match e.search(docs[j].clone()) {
+                            let r = match under_frames(frames, &mut || e.search(docs[j].clone())) {
                                 Ok(r) => format!("ok {}", value_str(&r)),
                                 Err(e) => err_str(&e),
                             };
@@ -389,6 +418,7 @@ fn stream_threads(fields: &[&str]) -> String {
     let docs: Vec<Rcvar> = fields[2].split(';').map(|d| Rcvar::new(parse_value(d))).collect();
     let programs: Vec<Vec<String>> =
         fields[3].split('|').map(|p| p.split(',').filter(|x| !x.is_empty()).map(|x| x.to_string()).collect()).collect();
+    let fields_rot = fields.len() > 4 && fields[4] == "rot";
     guarded(move || {
         let rt: &'static jmespath::Runtime = {
             use jmespath::functions::{ArgumentType as A, CustomFunction, Signature};
@@ -417,12 +447,16 @@ fn stream_threads(fields: &[&str]) -> String {
             );
             Box::leak(Box::new(r))
         };
-        let shared: Arc<Vec<Option<jmespath::Expression<'static>>>> = Arc::new(texts.iter().map(|t| rt.compile(t).ok()).collect());
+        // `rot` (5th field): two phases. Between them the main thread REPLACES every shared compiled expression in place (slot i gets the expression
+        // compiled from text i+1) while the workers wait; the same workers then run their programs again against the same slots.
+        let rot = fields_rot;
+        let shared: Arc<std::sync::RwLock<Vec<Option<jmespath::Expression<'static>>>>> =
+            Arc::new(std::sync::RwLock::new(texts.iter().map(|t| rt.compile(t).ok()).collect()));
         let docs = Arc::new(docs);
         let texts = Arc::new(texts);
         fn run_op(
             op: &str,
-            shared: &[Option<jmespath::Expression<'static>>],
+            shared: &std::sync::RwLock<Vec<Option<jmespath::Expression<'static>>>>,
             texts: &[String],
             docs: &[Rcvar],
         ) -> String {
@@ -435,25 +469,58 @@ fn stream_threads(fields: &[&str]) -> String {
                 Err(e) => err_str(&e),
             };
             match kind {
-                "s" => match &shared[e % shared.len()] {
-                    Some(ex) => show(ex.search(docs[d % docs.len()].clone())),
-                    None => "uncompiled".to_string(),
-                },
+                "s" => {
+                    let g = shared.read().unwrap();
+                    let n = g.len();
+                    match &g[e % n] {
+                        Some(ex) => show(ex.search(docs[d % docs.len()].clone())),
+                        None => "uncompiled".to_string(),
+                    }
+                }
                 _ => match jmespath::compile(&texts[e % texts.len()]) {
                     Ok(ex) => show(ex.search(docs[d % docs.len()].clone())),
                     Err(e) => format!("C {}", err_str(&e)),
                 },
             }
         }
+        let run_prog = |prog: &Vec<String>, shared: &std::sync::RwLock<Vec<Option<jmespath::Expression<'static>>>>, texts: &[String], docs: &[Rcvar]| {
+            prog.iter().map(|op| run_op(op, shared, texts, docs)).collect::<Vec<_>>().join(" ; ")
+        };
+        // in `rot` mode the sequential results of phase 1 are taken before the workers start (the slots change afterwards)
+        let mut seq1 = vec![];
+        if rot {
+            for t in 0..n {
+                seq1.push(run_prog(&programs[t % programs.len()], &shared, &texts, &docs));
+            }
+        }
         let barrier = Arc::new(Barrier::new(n));
+        let phase = Arc::new(Barrier::new(n + 1));
         let mut handles = vec![];
         for t in 0..n {
             let prog = programs[t % programs.len()].clone();
-            let (shared, texts, docs, barrier) = (shared.clone(), texts.clone(), docs.clone(), barrier.clone());
+            let (shared, texts, docs, barrier, phase) = (shared.clone(), texts.clone(), docs.clone(), barrier.clone(), phase.clone());
             handles.push(std::thread::spawn(move || {
                 barrier.wait();
-                prog.iter().map(|op| run_op(op, &shared, &texts, &docs)).collect::<Vec<_>>().join(" ; ")
+                let a = prog.iter().map(|op| run_op(op, &shared, &texts, &docs)).collect::<Vec<_>>().join(" ; ");
+                if !rot {
+                    return a;
+                }
+                phase.wait(); // phase 1 done
+                phase.wait(); // slots replaced
+                let b = prog.iter().map(|op| run_op(op, &shared, &texts, &docs)).collect::<Vec<_>>().join(" ; ");
+                format!("{} ;; {}", a, b)
             }));
+        }
+        if rot {
+            phase.wait();
+            {
+                let mut g = shared.write().unwrap();
+                let k = g.len();
+                for i in 0..k {
+                    g[i] = rt.compile(&texts[(i + 1) % k]).ok(); // assignment in place: same slot, same address
+                }
+            }
+            phase.wait();
         }
         let mut per_thread = vec![];
         let mut panicked = false;
@@ -469,7 +536,8 @@ fn stream_threads(fields: &[&str]) -> String {
         let mut seq = vec![];
         for t in 0..n {
             let prog = &programs[t % programs.len()];
-            seq.push(prog.iter().map(|op| run_op(op, &shared, &texts, &docs)).collect::<Vec<_>>().join(" ; "));
+            let b = run_prog(prog, &shared, &texts, &docs);
+            seq.push(if rot { format!("{} ;; {}", seq1[t], b) } else { b });
         }
         let same = !panicked && per_thread == seq;
         format!("threads={}\tsequential={}\t{}", per_thread.join(" || "), seq.join(" || "), if same { "same" } else { "DIFF" })
@@ -495,8 +563,9 @@ fn main() {
             "parse" => stream_parse(&fields),
             "eval" => stream_eval(&fields),
             "errfmt" => stream_errfmt(&fields),
-            "registry" => stream_registry(&fields, false),
-            "registryclone" => stream_registry(&fields, true),
+            "registry" => stream_registry(&fields, false, false),
+            "registryclone" => stream_registry(&fields, true, false),
+            "registrynoise" => stream_registry(&fields, false, true),
             "json" => stream_json(&fields),
             "serde" => serde_stream::stream_serde(&fields),
             "tojm" => stream_tojm(&fields),
